@@ -223,7 +223,7 @@ pub fn dowild_x(pat: &[u8], txt: &[u8], flags: u32, gix_fold: bool) -> Wm {
                             matched = true;
                         } else if flags & WM_CASEFOLD != 0 && islower(t_ch) {
                             let t_ch_upper = t_ch.to_ascii_uppercase();
-                            if t_ch_upper <= p_ch && t_ch_upper >= prev_ch {
+                            if !fold && t_ch_upper <= p_ch && t_ch_upper >= prev_ch {
                                 matched = true;
                             }
                             if fold {
